@@ -2806,6 +2806,10 @@ class Renamed(Subconstruct):
         path += " -> %s" % (self.name,)
         return self.subcon._sizeof(context, path)
 
+    def _actualsize(self, stream, context, path):
+        path += " -> %s" % (self.name,)
+        return self.subcon._actualsize(stream, context, path)
+
     def _emitparse(self, code):
         return self.subcon._compileparse(code)
 
